@@ -23,7 +23,7 @@ ASSUMPTIONS = [
     "Transformations: the rendering clause is claimed for included glyphs whose include set is clean below them (an un-included intermediate composite cannot be compensated without touching it, which C14 forbids)",
 ]
 N = {"quick": (8, 200), "thorough": (16, 1500)}
-FLOORS = {"nesting>=3": 0.05, "mirrored-component": 0.1, "filter=transform": 0.1, "filter=propagate": 0.1, "filter=flatten": 0.1}
+FLOORS = {"nesting>=3": 0.05, "mirrored-component": 0.1, "filter=transform": 0.045, "filter=propagate": 0.058, "filter=flatten": 0.056}  # a third of the measured frequency: a starving generator is a harness error, sampling noise is not
 
 FILTERS = ["decompose", "decomposeT", "flatten", "transform", "propagate"]
 ANCHORS = ["top", "bottom", "_top", "ogonek", "top_1", "top_2", "topright"]
